@@ -783,6 +783,11 @@ func c01r10(c *Ctx) {
 				out = append(out, e)
 				if depth > 0 {
 					if o := prog.ObjOf(info, prog.Unparen(e)); o != nil && o != res {
+						for _, d := range f.DefsOfPath(prog.Unparen(e)) {
+							if d.Rhs != nil {
+								out = append(out, d.Rhs)
+							}
+						}
 						for _, src := range f.SourcesAt(e, at) {
 							if src.Expr != nil && src.Expr != e {
 								add(src.Expr, at, depth-1)
